@@ -223,6 +223,8 @@ def rule_sibling(ctx):
     ctx.check(len(vals) == 1 and len(ss) >= 3, "C19.SIBLING", "senders", f"{len(ss)} senders share the shape {list(vals)[0] if len(vals) == 1 else vals}", f"the senders disagree: {shapes}", text=f"siblings:{sorted(vals)}")
 
 
+EXPLANATION = EXPLANATION + ' C19.LOCK also requires the output operations of one message to be awaited one after the other: handing their awaitables together to gather / wait / create_task lets a flush complete before its write.'
+
 RULES = [
     ("C19.LOCK", rule_lock, "all output operations of a message inside one async-with on a per-instance asyncio.Lock"),
     ("C19.SERIALIZE", rule_serialize, "serialise at routing time, one task per message carrying those bytes, one write"),
